@@ -6,6 +6,7 @@ package main
 import (
 	"fmt"
 	"go/types"
+	"math/big"
 	"regexp"
 	"strings"
 
@@ -29,6 +30,15 @@ func isSinkName(n string) bool {
 
 func registerGhosts(v *Verifier) {
 	v.ghostFuns["coinsLen"] = ghostSig{[]string{"Slice_sdk_Coin"}, "Int"}
+	v.ghostFuns["decquo"] = ghostSig{[]string{"Int", "Int"}, "Int"}
+	v.ghostFuns["hasDelegation"] = ghostSig{[]string{sortAddr, sortAddr}, "Bool"}
+	v.ghostFuns["delegationShares"] = ghostSig{[]string{sortAddr, sortAddr}, "Int"}
+	v.ghostFuns["hasValidator"] = ghostSig{[]string{sortAddr}, "Bool"}
+	v.ghostFuns["validatorShares"] = ghostSig{[]string{sortAddr}, "Int"}
+	v.ghostFuns["valAddrOf"] = ghostSig{[]string{sortStr}, sortAddr}
+	v.ghostFuns["validValAddr"] = ghostSig{[]string{sortStr}, "Bool"}
+	v.ghostFuns["decFromStr"] = ghostSig{[]string{sortStr}, "Int"}
+	v.ghostFuns["decFromStrOk"] = ghostSig{[]string{sortStr}, "Bool"}
 }
 
 func (e *Enc) extCall(x ssa.Value, cc *callCtx, name string) bool {
@@ -261,7 +271,7 @@ func init() {
 	extRules[D+"Quo"] = func(cc *callCtx) ([]string, bool) {
 		a, b := cc.arg(0), cc.arg(1)
 		cc.e.panicIf(fmt.Sprintf("(= %s 0)", b), "Dec.Quo: division by zero", cc.ins)
-		r := cc.e.havocSort("Int", "dquo")
+		r := cc.def("dquo", "Int", fmt.Sprintf("(decquo %s %s)", a, b))
 		// |r*b - a*1e18| <= |b|/2  (+1 for the double rounding of the SDK's chopPrecisionAndRound on an already rounded quotient)
 		cc.e.r.assume(fmt.Sprintf("(let ((d (- (* 2 (* %s %s)) (* 2 (* %s %s)))) (ab (ite (>= %s 0) %s (- %s)))) (and (<= (- (+ ab 2)) d) (<= d (+ ab 2))))", r, b, a, decOne, b, b, b))
 		return []string{r}, true
@@ -271,6 +281,12 @@ func init() {
 		return []string{fmt.Sprintf("(dec2f64 %s)", cc.arg(0))}, true
 	}
 	newDec := func(cc *callCtx) ([]string, bool) {
+		if c, ok := constInt(cc.args[0]); ok && c >= 0 {
+			v := new(big.Int)
+			v.SetString(decOne, 10)
+			v.Mul(v, big.NewInt(c))
+			return []string{v.String()}, true
+		}
 		return []string{cc.def("nd", "Int", fmt.Sprintf("(* %s %s)", cc.arg(0), decOne))}, true
 	}
 	extRules[sdkT+".NewDec"] = newDec
@@ -281,6 +297,12 @@ func init() {
 			return nil, false
 		}
 		m := "1" + strings.Repeat("0", int(18-p))
+		if c, ok := constInt(cc.args[0]); ok && c >= 0 {
+			v := new(big.Int)
+			v.SetString(m, 10)
+			v.Mul(v, big.NewInt(c))
+			return []string{v.String()}, true
+		}
 		return []string{cc.def("ndp", "Int", fmt.Sprintf("(* %s %s)", cc.arg(0), m))}, true
 	}
 	extRules[sdkT+".NewDecFromStr"] = func(cc *callCtx) ([]string, bool) {
@@ -619,6 +641,49 @@ func bankRules() {
 			return []string{fmt.Sprintf("(moduleAddr %s)", cc.arg(1))}, true
 		}
 		s := "(" + repoMod + "/x/" + mod + "/types.StakingKeeper)."
+		extRules[s+"GetDelegation"] = func(cc *callCtx) ([]string, bool) {
+			e := cc.e
+			g := e.g()
+			g.DeclFun("hasDelegation", []string{sortAddr, sortAddr}, "Bool")
+			g.DeclFun("delegationShares", []string{sortAddr, sortAddr}, "Int")
+			g.DeclFun("valAddrStr", []string{sortAddr}, sortStr)
+			ds := g.SortOf(cc.resType(0))
+			d, v := cc.arg(2), cc.arg(3)
+			del := e.havocSort(ds, "delegation")
+			found := cc.def("hasdel", "Bool", fmt.Sprintf("(hasDelegation %s %s)", d, v))
+			e.r.assume(fmt.Sprintf("(=> %s (and (= (%s_Shares %s) (delegationShares %s %s)) (= (%s_DelegatorAddress %s) (addrStr %s)) (= (%s_ValidatorAddress %s) (valAddrStr %s))))", found, ds, del, d, v, ds, del, d, ds, del, v))
+			return []string{del, found}, true
+		}
+		extRules[s+"GetValidator"] = func(cc *callCtx) ([]string, bool) {
+			e := cc.e
+			g := e.g()
+			g.DeclFun("hasValidator", []string{sortAddr}, "Bool")
+			g.DeclFun("validatorShares", []string{sortAddr}, "Int")
+			vs := g.SortOf(cc.resType(0))
+			v := cc.arg(2)
+			val := e.havocSort(vs, "validator")
+			found := cc.def("hasval", "Bool", fmt.Sprintf("(hasValidator %s)", v))
+			e.r.assume(fmt.Sprintf("(=> %s (= (%s_DelegatorShares %s) (validatorShares %s)))", found, vs, val, v))
+			return []string{val, found}, true
+		}
+		extRules[s+"GetDelegatorDelegations"] = func(cc *callCtx) ([]string, bool) {
+			e := cc.e
+			g := e.g()
+			ss := g.SortOf(cc.resType(0))
+			ds := g.sliceElem[ss]
+			g.DeclFun("hasDelegation", []string{sortAddr, sortAddr}, "Bool")
+			g.DeclFun("delegationShares", []string{sortAddr, sortAddr}, "Int")
+			g.DeclFun("valAddrOf", []string{sortStr}, sortAddr)
+			g.DeclFun("validValAddr", []string{sortStr}, "Bool")
+			fn := "delegationsOf"
+			g.DeclFun(fn, []string{sortAddr}, ss)
+			r := cc.def("dels", ss, fmt.Sprintf("(%s %s)", fn, cc.arg(2)))
+			e.typeInv(r, cc.resType(0), 0)
+			// every returned entry is a delegation of this delegator
+			e.r.assume(fmt.Sprintf("(forall ((i!d Int)) (! (=> (and (<= 0 i!d) (< i!d (%s_len %s))) (and (= (%s_DelegatorAddress (select (%s_arr %s) i!d)) (addrStr %s)) (validValAddr (%s_ValidatorAddress (select (%s_arr %s) i!d))) (hasDelegation %s (valAddrOf (%s_ValidatorAddress (select (%s_arr %s) i!d)))) (= (%s_Shares (select (%s_arr %s) i!d)) (delegationShares %s (valAddrOf (%s_ValidatorAddress (select (%s_arr %s) i!d))))))) :pattern ((select (%s_arr %s) i!d))))",
+				ss, r, ds, ss, r, cc.arg(2), ds, ss, r, cc.arg(2), ds, ss, r, ds, ss, r, cc.arg(2), ds, ss, r, ss, r))
+			return []string{r}, true
+		}
 		extRules[s+"BondDenom"] = func(cc *callCtx) ([]string, bool) {
 			cc.e.g().DeclFun("BondDenom", nil, sortStr)
 			return []string{"BondDenom"}, true
